@@ -369,7 +369,12 @@ func (L *layoutCtx) segs(v ssa.Value) [][]Seg {
 		case name == "slices.Clip" || name == "slices.Clone" || name == "bytes.Clone":
 			return L.segs(x.Call.Args[0])
 		case name == "(*bytes.Buffer).Bytes":
-			return one(Seg{Kind: "each", W: -1, Name: L.bufferSource(x)})
+			each := one(Seg{Kind: "each", W: -1, Name: L.bufferSource(x)})
+			// bytes.NewBuffer(init): what the buffer started with comes first
+			if nb, ok := x.Call.Args[0].(*ssa.Call); ok && calleeName(&nb.Call) == "bytes.NewBuffer" && !isNilConst(nb.Call.Args[0]) {
+				return cross(L.segs(nb.Call.Args[0]), each)
+			}
+			return each
 		}
 		// repo helper returning bytes: inline its returned expression
 		if out := L.inlineCall(x, 0); out != nil {
@@ -888,8 +893,10 @@ func checkLayoutsFiltered(R *Run, only func(typ string) bool) {
 		R.analysed(fname(fn))
 		// the buffer = operand of the copy
 		var buf ssa.Value
+		var emit *ssa.Call
 		for _, ci := range callsIn(fn) {
 			if c, ok := ci.(*ssa.Call); ok && calleeName(&c.Call) == "builtin.copy" && c.Call.Args[0] == ssa.Value(fn.Params[1]) {
+				emit = c
 				if sl, ok := c.Call.Args[1].(*ssa.Slice); ok {
 					buf = sl.X
 				} else {
@@ -903,7 +910,8 @@ func checkLayoutsFiltered(R *Run, only func(typ string) bool) {
 		}
 		L := &layoutCtx{P: P, seen: map[ssa.Value]bool{}}
 		if bi, ok := stripSlice(buf).(ssa.Instruction); ok && bi.Parent() == fn {
-			L.use = bi.Block()
+			// where the buffer is emitted: an operand that cannot reach that point is not a layout of the record
+			L.use = emit.Block()
 		}
 		alts := L.segs(buf)
 		extracted[o.Type] = alts
@@ -997,7 +1005,8 @@ func findPutValues(fn *ssa.Function) []ssa.Value {
 func findPutValuesDepth(fn *ssa.Function, depth int) []ssa.Value {
 	var out []ssa.Value
 	for _, ci := range callsIn(fn) {
-		if putUintWidth(calleeName(ci.Common())) > 0 {
+		n := calleeName(ci.Common())
+		if putUintWidth(n) > 0 || strings.HasSuffix(n, "AppendUint16") || strings.HasSuffix(n, "AppendUint32") || strings.HasSuffix(n, "AppendUint64") {
 			a := ci.Common().Args
 			out = append(out, a[len(a)-1])
 		}
@@ -1034,22 +1043,29 @@ func (R *Run) checkPrefixes(extracted map[string][][]Seg, all map[string]specObj
 		ok := false
 		why := "Size() is not of the form PutUint32(acc + C2) with acc = Σ over Fields of (len(Data) + C1)"
 		for _, v := range findPutValues(fn) {
-			b, isBin := stripConv(v).(*ssa.BinOp)
-			if !isBin || b.Op != token.ADD {
+			// acc + C2 with acc starting at 0, or acc alone starting at C2
+			var phi *ssa.Phi
+			var c2 int64
+			if b, isBin := stripConv(v).(*ssa.BinOp); isBin && b.Op == token.ADD {
+				ph, isPhi := b.X.(*ssa.Phi)
+				k, isC := constInt(b.Y)
+				if !isPhi || !isC {
+					continue
+				}
+				phi, c2 = ph, k
+			} else if ph, isPhi := stripConv(v).(*ssa.Phi); isPhi {
+				phi = ph
+			} else {
 				continue
 			}
-			phi, isPhi := b.X.(*ssa.Phi)
-			c2, isC := constInt(b.Y)
-			if !isPhi || !isC {
-				continue
-			}
-			// phi = [0, phi + (len(Data)+C1)]
+			// phi = [C0, phi + (len(Data)+C1)]
 			var c1 int64 = -1
 			dataLen := false
 			zero := false
 			for _, e := range phi.Edges {
-				if n, ok := constInt(e); ok && n == 0 {
+				if n, ok := constInt(e); ok {
 					zero = true
+					c2 += n
 					continue
 				}
 				if step, ok := e.(*ssa.BinOp); ok && step.Op == token.ADD && step.X == ssa.Value(phi) {
